@@ -321,10 +321,12 @@ class LSML_Supervised(_BaseLSML, TransformerMixin):
                     ' version 0.6.3 and will be removed in 0.7.0'
                     '', FutureWarning)
       self.n_constraints = num_constraints
+      num_constraints = 'deprecated'
     else:
       self.n_constraints = n_constraints
     # Avoid test get_params from failing (all params passed sholud be set)
-    self.num_constraints = 'deprecated'
+    # (the object given is stored: sklearn's `clone` checks identity)
+    self.num_constraints = num_constraints
     self.weights = weights
 
   def fit(self, X, y):
